@@ -58,17 +58,23 @@ Lemma abs_mul_le a b m : Z.abs b <= m -> Z.abs (a * b) <= Z.abs a * m.
 Proof. intros H. rewrite Z.abs_mul. apply Z.mul_le_mono_nonneg_l; [apply Z.abs_nonneg | exact H]. Qed.
 
 (** * Time/Duration primitives inside their ranges *)
-Lemma time_add_dur_ok t d : 0 <= t + d < 2 ^ 128 -> time_add_dur t d = Ok (t + d).
+(** `Time + Duration` saturates at 0 and at the largest U96F32 value *)
+Definition sat_add (t d : Z) : Z :=
+  if d <? 0 then Z.max 0 (t - Z.abs d) else Z.min TIME_MAX (t + Z.abs d).
+
+Lemma time_add_dur_sat t d : time_add_dur t d = Ok (sat_add t d).
+Proof. unfold time_add_dur, sat_add. destruct (d <? 0); reflexivity. Qed.
+
+Lemma sat_add_exact t d : 0 <= t + d < 2 ^ 128 -> sat_add t d = t + d.
+Proof. intros H. unfold sat_add, TIME_MAX. destruct (d <? 0) eqn:E; lia. Qed.
+
+Lemma sat_add_range t d : 0 <= t < 2 ^ 128 -> 0 <= sat_add t d < 2 ^ 128.
 Proof.
-  intros H. unfold time_add_dur. destruct (d <? 0) eqn:E.
-  - replace (t - Z.abs d) with (t + d) by lia. apply chk_u_ok; exact H.
-  - replace (t + Z.abs d) with (t + d) by lia. apply chk_u_ok; exact H.
+  intros H. unfold sat_add, TIME_MAX. rewrite P128 in *. destruct (d <? 0) eqn:E; lia.
 Qed.
 
-Lemma time_add_dur_inv t d r : time_add_dur t d = Ok r -> r = t + d /\ 0 <= t + d < 2 ^ 128.
-Proof.
-  unfold time_add_dur. destruct (d <? 0) eqn:E; intros H; apply chk_u_inv in H; lia.
-Qed.
+Lemma time_add_dur_ok t d : 0 <= t + d < 2 ^ 128 -> time_add_dur t d = Ok (t + d).
+Proof. intros H. rewrite time_add_dur_sat, sat_add_exact by exact H. reflexivity. Qed.
 
 Lemma time_diff_ok a b : 0 <= a < 2 ^ 127 -> 0 <= b < 2 ^ 127 -> time_diff a b = Ok (a - b).
 Proof.
@@ -193,12 +199,27 @@ Proof.
   apply time_add_dur_ok. consts. lia.
 Qed.
 
-(** every successful conversion IS the affine map (no range hypothesis) *)
+(** every successful conversion is the SATURATING affine map (no range
+    hypothesis), which is the affine map itself whenever neither addition
+    leaves the range of `Time` *)
+Definition reading_sat (L sh p t : Z) : Z := sat_add (sat_add t sh) (corr_z p (t - L)).
+
+Definition exact_at (s : ostate) (p t : Z) : Prop :=
+  0 <= t + shift s < 2 ^ 128 /\ 0 <= reading_z (last_sync s) (shift s) p t < 2 ^ 128.
+
+Lemma reading_sat_exact s p t :
+  exact_at s p t ->
+  reading_sat (last_sync s) (shift s) p t = reading_z (last_sync s) (shift s) p t.
+Proof.
+  intros (H1 & H2). unfold reading_sat, reading_z in *.
+  rewrite (sat_add_exact t (shift s)) by exact H1. apply sat_add_exact. exact H2.
+Qed.
+
 Lemma tfu_inv s t r :
   tfu s t = Ok r ->
   exists p, float_to_fixed (ppm s) = Ok p /\
-            r = reading_z (last_sync s) (shift s) p t /\
-            0 <= r < 2 ^ 128 /\ - 2 ^ 127 <= t < 2 ^ 127.
+            r = reading_sat (last_sync s) (shift s) p t /\
+            (0 <= t -> 0 <= r < 2 ^ 128) /\ - 2 ^ 127 <= t < 2 ^ 127.
 Proof.
   unfold tfu. intros H.
   apply obind_ok in H as (e & He & H). apply time_diff_inv in He as (-> & Ht & HL).
@@ -207,9 +228,18 @@ Proof.
   apply obind_ok in H as (c & Hc & H).
   rewrite dur_div_mega in Hc by (change (128 - 1) with 127 in Hm; exact Hm).
   inversion Hc; subst c; clear Hc.
-  apply obind_ok in H as (a & Ha & H). apply time_add_dur_inv in Ha as (-> & Ha).
-  apply time_add_dur_inv in H as (-> & H).
-  exists p. split; [exact Hp|]. split; [reflexivity|]. split; [exact H | exact Ht].
+  apply obind_ok in H as (a & Ha & H). rewrite time_add_dur_sat in Ha, H.
+  inversion Ha; subst a; clear Ha. inversion H; subst r; clear H.
+  exists p. split; [exact Hp|]. split; [reflexivity|]. split; [|exact Ht].
+  intros H0. apply sat_add_range, sat_add_range. rewrite P128, P127 in *. lia.
+Qed.
+
+Lemma tfu_exact s t r p :
+  float_to_fixed (ppm s) = Ok p -> exact_at s p t -> tfu s t = Ok r ->
+  r = reading_z (last_sync s) (shift s) p t.
+Proof.
+  intros Hp Hx H. apply tfu_inv in H as (p' & Hp' & -> & _).
+  rewrite Hp in Hp'. inversion Hp'; subst p'. apply reading_sat_exact. exact Hx.
 Qed.
 
 (** reading at the anchor itself, after re-anchoring with shift = r - t *)
@@ -249,7 +279,7 @@ Proof.
   apply obind_ok in H as (sh & Hsh & H).
   apply obind_ok in H as (u & _ & H). inversion H; subst s' ret; clear H.
   apply time_diff_inv in Hsh as (-> & Hr & Ht).
-  destruct (tfu_inv _ _ _ Hnl) as (p0 & _ & _ & Hrr & _).
+  destruct (tfu_inv _ _ _ Hnl) as (p0 & _ & _ & Hrr & _). specialize (Hrr H0).
   split; [exact Hnl|]. split; [|cbn; auto].
   intros p Hp. apply (tfu_after_sync t nl f p Hp Hrr). lia.
 Qed.
@@ -264,7 +294,7 @@ Proof.
   destruct (tfu s t) as [nl|] eqn:Hnl; cbn [obind]; [|reflexivity].
   destruct (time_diff nl t) as [sh|] eqn:Hsh; cbn [obind]; [|reflexivity].
   apply time_diff_inv in Hsh as (-> & Hr & Ht).
-  destruct (tfu_inv _ _ _ Hnl) as (p0 & _ & _ & Hrr & _).
+  destruct (tfu_inv _ _ _ Hnl) as (p0 & _ & _ & Hrr & _). specialize (Hrr H0).
   rewrite (tfu_after_sync t nl f p Hp Hrr) by lia. cbn [obind].
   rewrite Z.eqb_refl. reflexivity.
 Qed.
@@ -297,14 +327,16 @@ Proof.
 Qed.
 
 (** step_exact on the code as it is, for ppm = +-0.0: the reading jumps by
-    exactly the requested offset (no range hypothesis). *)
+    exactly the requested offset (the only hypothesis: the readings before and
+    after are representable, i.e. `Time + Duration` does not saturate). *)
 Lemma step_exact_zero_ppm s t off pre s' ret :
   float_is_zero (ppm s) = true ->
+  0 <= t + shift s < 2 ^ 128 -> 0 <= t + shift s + off < 2 ^ 128 ->
   tfu s t = Ok pre ->
   step_clock_current s t off = Ok (s', ret) ->
   ret = pre + off /\ tfu s' t = Ok ret.
 Proof.
-  intros Hz Hpre H.
+  intros Hz Hx1 Hx2 Hpre H.
   destruct (zero_ppm_facts _ Hz) as (Hp0 & Hr1).
   destruct (step_current_returns _ _ _ _ _ H) as (Hret & _ & _).
   split; [|exact Hret].
@@ -315,11 +347,12 @@ Proof.
   unfold dur_mul_float in Hd. rewrite Hr1 in Hd. cbn [obind] in Hd.
   apply chk_i_inv in Hd as (-> & _).
   unfold dur_add in Hsh. apply chk_i_inv in Hsh as (-> & _).
-  apply tfu_inv in Hpre as (p & Hp & -> & _). rewrite Hp0 in Hp. inversion Hp; subst p.
-  apply tfu_inv in Hr as (p & Hp' & -> & _). cbn [ppm last_sync shift] in *.
-  rewrite Hp0 in Hp'. inversion Hp'; subst p.
-  unfold reading_z. rewrite !corr_z_p0.
-  rewrite Z.div_mul by (unfold FRAC; rewrite P32; lia). lia.
+  rewrite Z.div_mul in * by (unfold FRAC; rewrite P32; lia).
+  apply (tfu_exact _ _ _ 0 Hp0) in Hpre.
+  2:{ unfold exact_at, reading_z. rewrite corr_z_p0. lia. }
+  apply (tfu_exact _ _ _ 0) in Hr; [|exact Hp0|].
+  2:{ unfold exact_at, reading_z. cbn [ppm last_sync shift]. rewrite corr_z_p0. lia. }
+  subst pre r. unfold reading_z. cbn [ppm last_sync shift]. rewrite !corr_z_p0. lia.
 Qed.
 
 (** F9: with ppm <> 0 the statement is false of the code as it is.
@@ -343,18 +376,18 @@ Proof.
   split; [vm_compute; discriminate | vm_compute; reflexivity].
 Qed.
 
-(** step_exact for the PROPOSED repair, for every ppm (no range hypothesis) *)
+(** step_exact for the PROPOSED repair, for every ppm (only hypothesis: the
+    stepped reading is representable, i.e. no saturation) *)
 Lemma step_exact_fixed s t off pre s' ret :
   0 <= t ->
-  tfu s t = Ok pre ->
+  tfu s t = Ok pre -> 0 <= pre + off < 2 ^ 128 ->
   step_clock_fixed s t off = Ok (s', ret) ->
   ret = pre + off /\ tfu s' t = Ok ret /\
   last_sync s' = t /\ shift s' = ret - t /\ ppm s' = ppm s.
 Proof.
-  intros H0 Hpre H. unfold step_clock_fixed in H. rewrite Hpre in H. cbn [obind] in H.
-  apply obind_ok in H as (nl & Hnl & H).
+  intros H0 Hpre Hr H. unfold step_clock_fixed in H. rewrite Hpre in H. cbn [obind] in H.
+  rewrite (time_add_dur_ok pre off Hr) in H. cbn [obind] in H.
   apply obind_ok in H as (sh & Hsh & H). inversion H; subst s' ret; clear H.
-  apply time_add_dur_inv in Hnl as (-> & Hr).
   apply time_diff_inv in Hsh as (-> & Hr2 & Ht).
   destruct (tfu_inv _ _ _ Hpre) as (p & Hp & _).
   split; [reflexivity|]. split; [|cbn; auto].
@@ -565,7 +598,9 @@ Proof.
   split; [exact Hnow|]. split; [exact Hstep|]. split; [exact Hnow'|].
   split; [exact HI'|]. split; [reflexivity|]. split; [reflexivity|].
   intros [Hs | Hz]; [discriminate|].
-  apply (step_exact_zero_ppm s t off _ s' ret Hz Hnow Hstep).
+  apply (step_exact_zero_ppm s t off _ s' ret Hz); [| |exact Hnow|exact Hstep].
+  - clear - Hk Hb Ht Ho HL Hsh. consts. lia.
+  - clear - Hk Hb Ht Ho HL Hsh. consts. lia.
 Qed.
 
 Lemma step_fixed_ok strict : step_spec strict step_clock_fixed.
@@ -732,18 +767,18 @@ Proof. vm_compute. repeat split; reflexivity. Qed.
 
 (** * Readable corollaries *)
 
-(** rate_bound on model outputs (no range hypothesis): two successful readings
-    at underlying times t1 <= t2 not before the anchor. *)
+(** rate_bound on model outputs: two readings at underlying times t1 <= t2 not
+    before the anchor, both representable (no saturation). *)
 Lemma rate_bound s p t1 t2 r1 r2 :
   float_to_fixed (ppm s) = Ok p ->
   last_sync s <= t1 <= t2 ->
+  exact_at s p t1 -> exact_at s p t2 ->
   tfu s t1 = Ok r1 -> tfu s t2 = Ok r2 ->
   Z.abs (MEGA * FRAC * ((r2 - r1) - (t2 - t1)) - (t2 - t1) * p) < MEGA * FRAC /\
   rate_ok (ppm s) (t2 - t1) r1 r2 = true.
 Proof.
-  intros Hp Ht H1 H2.
-  apply tfu_inv in H1 as (p1 & Hp1 & -> & _). rewrite Hp in Hp1. inversion Hp1; subst p1.
-  apply tfu_inv in H2 as (p2 & Hp2 & -> & _). rewrite Hp in Hp2. inversion Hp2; subst p2.
+  intros Hp Ht Hx1 Hx2 H1 H2.
+  apply (tfu_exact _ _ _ p Hp Hx1) in H1. apply (tfu_exact _ _ _ p Hp Hx2) in H2. subst r1 r2.
   split; [apply rate_core; exact Ht|].
   pose proof (rate_ok_model (ppm s) p (last_sync s) (shift s) t1 (t2 - t1) Hp ltac:(lia) ltac:(lia)) as H.
   replace (t1 + (t2 - t1)) with t2 in H by lia. exact H.
@@ -758,3 +793,16 @@ Qed.
 
 Lemma convert_agrees_with_now s q : overlay_now s q = tfu s q.
 Proof. reflexivity. Qed.
+
+(** inside the invariant no reading at or after the anchor saturates *)
+Lemma inv_exact_at t0 k s p q :
+  0 <= k -> Inv t0 k s -> (k + 1) * B_STEP <= t0 -> last_sync s <= q < TMAX ->
+  float_to_fixed (ppm s) = Ok p -> exact_at s p q.
+Proof.
+  intros Hk HI Hb Hq Hp.
+  destruct (inv_now t0 k s q Hk HI Hb Hq) as (p' & Hp' & Hpp & _ & Hr & Hc).
+  rewrite Hp in Hp'. inversion Hp'; subst p'.
+  destruct HI as (_ & HL & Hsh). unfold exact_at.
+  set (r := reading_z (last_sync s) (shift s) p q) in *. clearbody r.
+  clear Hc. consts. lia.
+Qed.
